@@ -430,6 +430,8 @@ func checkTrace(transport string, s script, tr *trace) (out []finding) {
 		case kind.match == nil && kind.matchFn == nil: // unregistered
 			if isEOF(t0.Err) || !strings.Contains(t0.Err.Error(), "plain failure") {
 				add("terminal-mismatch:unregistered", "handler returned %q; client's terminal result is %q", tr.srvRet, t0.Err)
+			} else if kind.Name == "unregistered.sentinel" && (transport == "mock" || transport == "grpc") && !errors.Is(t0.Err, ErrPlain) {
+				add("terminal-mismatch:unregistered-identity-lost", "handler returned %q (wrapping a sentinel) to an internal peer; the client's terminal result %q no longer satisfies errors.Is with it", tr.srvRet, t0.Err)
 			}
 		default:
 			if !kind.matches(t0.Err) {
